@@ -541,3 +541,11 @@ def _rank(prog, fn, e, at, arrays, depth) -> Optional[int]:
             return None
         return max(l, r)
     return None
+
+
+def check_thorough(ctx):
+    """generic definite-assignment lint over all functions (diagnostic D1)."""
+    from ..thorough import possibly_unbound
+
+    ctx.extra["diagnostic_possibly_unbound_locals"] = possibly_unbound(ctx.prog)
+    ctx.note("D1 (diagnostic only, not armed): locals possibly unbound at a use are listed in coverage.diagnostic_possibly_unbound_locals; flag correlations make most of them infeasible")
